@@ -122,8 +122,28 @@ func (w *World) doUserCancel(in Intent) {
 			signer = a
 		}
 	}
-	msg := &mhub2types.MsgCancelSendToExternal{Id: id, Sender: signer.Addr.String(), ChainId: in.Chain}
-	w.Submit("user_cancel", signer, in.Net, map[string]string{"chain": in.Chain, "id": strconv.FormatUint(id, 10)}, msg)
+	// the chain named in the message may differ from the chain whose pool the id was taken from
+	msgChain := in.Chain
+	switch in.Chain2 {
+	case "":
+	case "prefix":
+		if len(msgChain) > 1 {
+			msgChain = msgChain[:len(msgChain)-1]
+		}
+	case "prefix3":
+		if len(msgChain) > 3 {
+			msgChain = msgChain[:3]
+		}
+	case "empty":
+		msgChain = ""
+	default:
+		msgChain = in.Chain2
+	}
+	if msgChain != in.Chain {
+		w.St.Fault("op_cancel_wrong_chain")
+	}
+	msg := &mhub2types.MsgCancelSendToExternal{Id: id, Sender: signer.Addr.String(), ChainId: msgChain}
+	w.Submit("user_cancel", signer, in.Net, map[string]string{"chain": msgChain, "id": strconv.FormatUint(id, 10)}, msg)
 }
 
 func (w *World) doRequestBatch(in Intent) {
